@@ -8,7 +8,7 @@ use datamatrix::data::{decode_str, latin1_to_utf8, utf8_to_latin1};
 use super::enc_common::{builder, EncCase};
 
 pub fn eval(ctx: &mut Ctx, s: &str, macros: bool, tag: &str) {
-    let cfg = EncCase { input: vec![], list: "default".into(), mask: 63, macros, fnc1: false, eci: None, order: 0, prelude: 0, skipdef: false };
+    let cfg = EncCase { input: vec![], list: "default".into(), mask: 63, macros, fnc1: false, eci: None, order: 0, prelude: 0, skipdef: false, entry: 0 };
     eval_cfg(ctx, s, &cfg, tag)
 }
 
@@ -94,10 +94,16 @@ pub fn eval_helpers(ctx: &mut Ctx) {
         let s = ch.to_string();
         let got = guard(|| utf8_to_latin1(&s));
         let want = if latin1_printable_char(ch) { Some(vec![u as u8]) } else { None };
+        // C0/C1 controls are outside the printable repertoire; the statement only asks for agreement with
+        // ISO-8859-1, which (as the IANA character set) maps them to themselves: refusal and identity both agree
+        let control = u < 0x20 || (0x7F..=0x9F).contains(&u);
         match got {
             Err(p) => ctx.violation("helper_panic", &Case::new("helper_u2l").with("cp", u), p),
             Ok(g) => {
-                if g != want {
+                if control && g == Some(vec![u as u8]) {
+                    ctx.count("helper.control_mapped_to_itself(not judged)");
+                    ctx.count("helper.utf8_to_latin1_scalars");
+                } else if g != want {
                     ctx.violation("utf8_to_latin1_differs_from_iso8859_1", &Case::new("helper_u2l").with("cp", u), format!("U+{:04X}: got {:?}, ISO 8859-1 says {:?}", u, g, want));
                 } else {
                     ctx.count("helper.utf8_to_latin1_scalars");
@@ -110,10 +116,14 @@ pub fn eval_helpers(ctx: &mut Ctx) {
         ctx.eval();
         let got = guard(|| latin1_to_utf8(&[b]));
         let want = if latin1_printable_char(b as char) { Some((b as char).to_string()) } else { None };
+        let control = b < 0x20 || (0x7F..=0x9F).contains(&b);
         match got {
             Err(p) => ctx.violation("helper_panic", &Case::new("helper_l2u").with("byte", b), p),
             Ok(g) => {
-                if g != want {
+                if control && g == Some((b as char).to_string()) {
+                    ctx.count("helper.control_mapped_to_itself(not judged)");
+                    ctx.count("helper.latin1_to_utf8_bytes");
+                } else if g != want {
                     ctx.violation("latin1_to_utf8_differs_from_iso8859_1", &Case::new("helper_l2u").with("byte", b), format!("byte {:#x}: got {:?}, ISO 8859-1 says {:?}", b, g, want));
                 } else {
                     ctx.count("helper.latin1_to_utf8_bytes");
